@@ -80,7 +80,7 @@ func genC17Consts() (*coqFile, error) {
 	}
 	want := map[fn]bool{
 		// the functions of latlng.go are translated as a whole (gen_c17funcs.go, Gen/C17Funcs.v)
-		{"", "decodeDateTime"}: true, {"", "encodeTime"}: true,
+		// ... and so are those of time.go
 	}
 	var lines []string
 	for _, f := range files {
